@@ -117,10 +117,14 @@ var v2C05Kinds = []v2Tr{
 		}), nil
 	}},
 	{"trail", func(vt *v2T, l []string, ex []bool) ([]string, []int) {
-		return v2MapLines(l, ex, func(s string) string { return s + strings.Repeat(" ", 1+vt.rng.Intn(3)) + strings.Repeat("\t", vt.rng.Intn(2)) }), nil
+		return v2MapLines(l, ex, func(s string) string {
+			return s + strings.Repeat(" ", 1+vt.rng.Intn(3)) + strings.Repeat("\t", vt.rng.Intn(2))
+		}), nil
 	}},
 	{"indent", func(vt *v2T, l []string, ex []bool) ([]string, []int) {
-		return v2MapLines(l, ex, func(s string) string { return strings.Repeat(" ", vt.rng.Intn(9)) + strings.Repeat("\t", vt.rng.Intn(2)) + s }), nil
+		return v2MapLines(l, ex, func(s string) string {
+			return strings.Repeat(" ", vt.rng.Intn(9)) + strings.Repeat("\t", vt.rng.Intn(2)) + s
+		}), nil
 	}},
 	{"crlf", func(vt *v2T, l []string, ex []bool) ([]string, []int) {
 		out := v2MapLines(l, ex, func(s string) string { return s + "\r" })
